@@ -438,21 +438,25 @@ PROPS['C04'] = dict(
 
 PROPS['C18'] = dict(
     level='other',
-    level_text=('MINIMAL SCOPE: unbounded proof (Verus/Z3) of the one function every virtual-key operation goes through, handle_fakekey_action (src/kanata/mod.rs, cut whole): '
+    level_text=('SMALL SCOPE, unbounded proofs (Verus/Z3): (1) the one function every virtual-key operation goes through, handle_fakekey_action (src/kanata/mod.rs, cut whole): '
                 'press queues a press of the virtual key\'s coordinate, release a release, tap both with the press first, toggle a release if a state exists at the coordinate and a press otherwise. '
-                'NOT decided: the timed forms (hold-for-duration: insert-or-rearm and countdown; on-idle: fires once after the idle time) - hash-map entry/retain with closures inside Kanata methods -, '
-                'that the four sources (key, macro, sequence, TCP) all call this function, that toggle ALTERNATES over a history (it does iff a press creates and a release removes a state at the coordinate: Layout, see C04), '
+                '(2) The timed forms, as FRAGMENTS (the bodies of the closures handed to HashMap::retain / entry().or_insert_with / HashSet::retain, wrapped in synthetic signatures with their captures as parameters): '
+                'hold-for-duration - first activation presses the virtual key and starts its countdown at the configured duration (vkey_hold_start); each millisecond the countdown goes down by one (saturating) and the key is released, and forgotten, exactly when it reaches zero (vkey_countdown_one); '
+                'on-idle - a pending action fires, through handle_fakekey_action, exactly when kanata has been idle for at least the configured time, and is then forgotten; otherwise nothing happens and it stays pending (idle_fire_one). '
+                'NOT decided: the std semantics the fragments sit in (retain calls the closure once per entry and keeps it iff true; entry().and_modify(f).or_insert_with(g): re-arm vs insert), ticks_since_idle bookkeeping, '
+                'that the four sources (key, macro, sequence, TCP) all call these functions, that toggle ALTERNATES over a history (it does iff a press creates and a release removes a state at the coordinate: Layout, see C04), '
                 'and what the queued events then do.'),
-    level_note='Trusted: rustc, Verus+Z3, extractor. Assumed: Layout::event appends to the queue (logged stub); states_has_coord (`.iter().any(closure)`) decides "a state exists at the coordinate". Everything timed in C18 is outside.',
-    technique='contract-based deductive verification (Verus) of one dispatcher function against a ghost event log',
+    level_note='Trusted: rustc, Verus+Z3, extractor. Assumed: Layout::event appends to the queue (logged stub); states_has_coord (`.iter().any(closure)`) decides "a state exists at the coordinate"; `match deadline {` on a `&mut u16` is rewritten to `match *deadline {` (R45: this Verus does not match a reference against a literal pattern); HashMap / HashSet retain and the entry API are outside.',
+    technique='contract-based deductive verification (Verus) of one dispatcher function and three closure bodies against a ghost event log',
     design_ref='DESIGN.md section 9.1b (C18)',
-    explanation='Unit vkeys: handle_fakekey_action appends exactly [Press] / [Release] / [Press, Release] / [held ? Release : Press] for the coordinate (x, y) to the layout event log.',
+    explanation='Unit vkeys: handle_fakekey_action appends exactly [Press] / [Release] / [Press, Release] / [held ? Release : Press] for the coordinate (x, y) to the layout event log. vkey_countdown_one: deadline\' == deadline - 1 (saturating), kept iff deadline\' != 0, Release(coord) queued iff deadline\' == 0. vkey_hold_start: Press(coord) queued, returns the duration. idle_fire_one (caller of handle_fakekey_action, checked against its contract): fires iff ticks_since_idle >= idle_duration, queues exactly that action\'s events, returns false (dropped); else true and nothing changes.',
     verus=[dict(unit='vkeys')],
     kani=[],
     assumptions=[
-        'NOT decided: FakeKeyHoldForDuration (vkeys_pending_release entry().and_modify().or_insert_with(closure)), tick_held_vkeys (HashMap::retain with a closure that calls layout.event), FakeKeyOnIdle / tick_idle_timeout (retain closure), ticks_since_idle bookkeeping',
+        'NOT decided: HashMap::retain / HashSet::retain / entry().and_modify().or_insert_with() themselves (the closures\' BODIES are under contract, their callers\' iteration is std), the and_modify closure `|d| *d = duration` (one assignment), ticks_since_idle bookkeeping (it is reset in handle_input_event: unit input)',
         'NOT decided: call sites (custom action handler, macro / sequence activation, tcp_server) and Layout::event / dequeue / do_action for row-1 coordinates',
         'states_has_coord is an assumed stub (closure in Iterator::any)',
+        'R45: `match deadline {` with `deadline: &mut u16` and literal patterns -> `match *deadline {`',
     ],
     trusted_base=['rustc', 'Verus 0.2026.09.13 / Z3', 'extractor lib/rustcut.py + lib/verusgen.py'],
 )
